@@ -194,6 +194,15 @@ func opCases(c *Ctx) {
 			small = append(small, d)
 		}
 	}
+	critical := []string{"I64:-9223372036854775808", "I64:-9223372036854775807", "I64:9223372036854775807", "I64:9223372036854775806",
+		"I64:-1", "I64:0", "I64:1", "I64:2", "I64:-2", "I64:3037000499", "I64:3037000500", "I64:-3037000500", "I64:4611686018427387904", "I64:-4611686018427387904", "I64:4294967296", "I64:-4294967296", "I64:2147483648"}
+	for _, a := range critical {
+		for _, b := range critical {
+			for _, op := range []string{"+", "-", "*", "/", "%", "<", "==", "&", "|", "^", "&^"} {
+				opCase(c, "bin", op, a, b)
+			}
+		}
+	}
 	step := 1
 	if !c.Thorough() {
 		step = 4
@@ -685,6 +694,20 @@ func sweep(c *Ctx) {
 	for _, s := range corpus {
 		replayDecl(c, s)
 	}
+	// values stated by hand (exact integer arithmetic), for the inputs on which go/constant is itself wrong
+	for _, e := range expectCorpus {
+		c.Count("evaluations")
+		r := scEval("package main\n\n" + e[0] + "\n\nfunc main() { }\n")
+		got := "error: " + r.Err
+		if r.Err == "" && r.Re != nil && r.Re.IsInt() {
+			got = r.Type + " " + r.Re.Num().String()
+		}
+		if got != e[1] {
+			c.Fail("value/expected", map[string]string{"decl": e[0], "scriggo": got, "want": e[1]})
+		} else {
+			c.Count("nontrivial")
+		}
+	}
 	genDecls(c, c.N, one)
 	// printed value through scriggo.Build + Run on a sample
 	g := &gen{r: c.Rng}
@@ -755,6 +778,15 @@ func trunc(s string, n int) string {
 		return s[:n] + "..."
 	}
 	return s
+}
+
+// expectCorpus: declaration and the exact result (type and value).
+var expectCorpus = [][2]string{
+	{"const C = (-9223372036854775807 - 1) / -1", "untyped int 9223372036854775808"},
+	{"const C = (-9223372036854775807 - 1) % -1", "untyped int 0"},
+	{"const C = -(-9223372036854775807 - 1)", "untyped int 9223372036854775808"},
+	{"const C = (-9223372036854775807 - 1) * -1", "untyped int 9223372036854775808"},
+	{"const C = int64(-9223372036854775807 - 1) / -1", "error: :3:43: invalid operation: int64(-9223372036854775807 - 1) / -1 (constant 9223372036854775808 overflows int64)"},
 }
 
 // corpus: the inputs named by the property text and the reproducers of the repaired defects.
